@@ -318,6 +318,9 @@ package core
 //@ ghost field limited bool
 //@ extern net/http.MaxBytesReader(w, r, n)
 //@   ensures res != nil && fresh(res) && ghost(res).limited
+// io.LimitReader: a reader that stops after n bytes (C20: size-capped reads of what a backend sends)
+//@ extern io.LimitReader(r, n)
+//@   ensures res != nil && fresh(res) && ghost(res).limited
 
 // net/http client: "On error, any Response can be ignored"; on success the response and its Body are non-nil
 //@ extern (*net/http.Client).Do(req)
